@@ -76,9 +76,11 @@ func (s *faultSrc) Read(p []byte) (int, error) {
 	if mcrt.Aborting() {
 		return 0, errOther
 	}
+	withData := error(nil) // an error to hand over TOGETHER with the next data, as io.Reader allows
+	nbytes := 1
 	if len(s.pending) == 0 {
 		if s.pos < len(s.data) {
-			switch c := mcrt.Choose(8, "read"); c {
+			switch c := mcrt.Choose(12, "read"); c {
 			case 1, 2, 3, 4: // EOF run of length c
 				for i := 0; i < c; i++ {
 					s.pending = append(s.pending, io.EOF)
@@ -93,6 +95,18 @@ func (s *faultSrc) Read(p []byte) (int, error) {
 			case 7:
 				s.pending = append(s.pending, errOther)
 				s.faults = append(s.faults, fmt.Sprintf("error@%d", s.pos))
+			case 8: // as many bytes as the caller's buffer takes (up to 3), no error
+				nbytes = 3
+				s.faults = append(s.faults, fmt.Sprintf("chunk3@%d", s.pos))
+			case 9: // data and EOF in the same call
+				nbytes, withData = 2, io.EOF
+				s.faults = append(s.faults, fmt.Sprintf("data+EOF@%d", s.pos))
+			case 10:
+				nbytes, withData = 2, errTimeout
+				s.faults = append(s.faults, fmt.Sprintf("data+timeout@%d", s.pos))
+			case 11:
+				nbytes, withData = 2, errOther
+				s.faults = append(s.faults, fmt.Sprintf("data+error@%d", s.pos))
 			}
 		} else {
 			s.afterData++
@@ -107,21 +121,36 @@ func (s *faultSrc) Read(p []byte) (int, error) {
 	if len(s.pending) > 0 {
 		e := s.pending[0]
 		s.pending = s.pending[1:]
-		if e == io.EOF || e == errTimeout {
-			s.transient++
-			if !s.inRun {
-				s.inRun = true
-				s.firstEOF = mcrt.Now()
-			}
-		}
-		s.lastErr = e
+		s.noteErr(e)
 		return 0, e
 	}
 	s.inRun = false
-	p[0] = s.data[s.pos]
-	s.pos++
+	n := nbytes
+	if n > len(p) {
+		n = len(p)
+	}
+	if n > len(s.data)-s.pos {
+		n = len(s.data) - s.pos
+	}
+	copy(p, s.data[s.pos:s.pos+n])
+	s.pos += n
 	s.supplied = s.pos
-	return 1, nil
+	if withData != nil {
+		s.noteErr(withData)
+		return n, withData
+	}
+	return n, nil
+}
+
+func (s *faultSrc) noteErr(e error) {
+	if e == io.EOF || e == errTimeout {
+		s.transient++
+		if !s.inRun {
+			s.inRun = true
+			s.firstEOF = mcrt.Now()
+		}
+	}
+	s.lastErr = e
 }
 
 type consumerLog struct {
